@@ -141,7 +141,7 @@ def gen_rr(thorough):
                     if not thorough and res == "w" and start == "2":
                         continue
                     U.append((amount, dur, start, res))
-    sizes = (2, 3)
+    sizes = (1, 2, 3)  # a single use can already exceed the capacity of its instance
     for cap in (1, 2, 3):
         for hor in (None, 6):
             for size in sizes:
@@ -208,6 +208,9 @@ def gen_basic(thorough):
         "rr": ("ReusableResource r = new ReusableResource(5.0);", "r.Use", "rr"),
         "cr-consume": ("class B : ConsumableResource { B(real i, real c) : ConsumableResource(i, c) {} predicate C() : Consume { } } B b = new B(5.0, 10.0);", "b.C", "cr"),
         "cr-produce": ("class B : ConsumableResource { B(real i, real c) : ConsumableResource(i, c) {} predicate D() : Produce { } } B b = new B(5.0, 10.0);", "b.D", "cr"),
+        "class-interval": ("class R { predicate W() : Interval { } } R ro = new R();", "ro.W", ""),
+        "class-impulse": ("class R { predicate N() : Impulse { } } R ro = new R();", "ro.N", ""),
+        "subclass-interval": ("class B { predicate W() : Interval { } } class R : B { } R ro = new R();", "ro.W", ""),
         "agent-interval": ("class A : Agent { predicate W() : Interval { } } A ag = new A();", "ag.W", "agent"),
         "agent-impulse": ("class A : Agent { predicate N() : Impulse { } } A ag = new A();", "ag.N", "agent"),
     }
